@@ -57,12 +57,9 @@ WrapOK(leaf, w) ==
 DefName(leaf, w) == leaf \o "__" \o w
 LeafDefName(leaf) == leaf \o "__top"
 
-DefaultFor(leaf) ==
-  LET s == LeafSchemas[leaf] IN
-  CASE s.type = "integer" -> Num(4)
-    [] s.type = "number"  -> Num(3)
-    [] s.type = "string"  -> IF Has(s, "format") THEN Str("2020-01-02") ELSE IF Has(s, "minLength") THEN Str("ab") ELSE Str("a")
-    [] s.type = "boolean" -> Bool(TRUE)
+\* a default must itself be valid for the leaf (else the document is not a valid spec) and non-zero
+DefaultCands == {Num(4), Num(6), Num(3), Num(2), Num(8), Str("ab"), Str("a"), Str("2020-01-02"), Bool(TRUE)}
+DefaultFor(leaf) == CHOOSE v \in DefaultCands : Valid(<<>>, LeafSchemas[leaf], v)
 
 Wrap(leaf, w) ==
   LET s == LeafSchemas[leaf] IN
